@@ -249,3 +249,9 @@ func VerifClientSocketState(s ClientSocket) (state int, buffered int) {
 	cs.sendBufferMu.Unlock()
 	return
 }
+
+// VerifManagerBackoffKey is the object the back-off hooks of this manager report.
+func VerifManagerBackoffKey(m *Manager) any { return m.backoff }
+
+// VerifClientSocketKey is the object the hooks of this client socket report.
+func VerifClientSocketKey(s ClientSocket) any { return s.(*clientSocket) }
